@@ -506,7 +506,8 @@ CHECKS["C20"] = dict(
 _WIDENED = {
     "C01": "a quarter of the identities repeat one reading (points that differ in nothing but their time).",
     "C02": "histories also mirror a leaf under a second parent inside the device tree; the convergence wait extends while the "
-           "difference keeps changing (25 s without change, 150 s at most).",
+           "difference keeps changing (25 s without change, 150 s at most); once a node has two placements nothing is written to "
+           "it or below it (known finding C02-F1; the skipped writes are counted under excluded_by_known_finding).",
     "C04": "one node-point batch in six has 33-150 points (all of it or none of it after a crash).",
     "C07": "a child is added (or one removed and another added) from inside the client constructor, i.e. between the manager's "
            "read of the children and its subscription; child changes are written with the managed node's own id as origin half "
